@@ -32,6 +32,41 @@ CHECKS.update({
          "Exploration: addmul/addmul_n/mul_nx1/addmul_nx1/submul_nx1/add_nx1/adc_n/sbb_n/shift_*_small/cmp on lengths 0..=10 with zero-limb and all-ones shapes and accumulators shorter/equal/longer than the product, checked by exact identities (result limbs and carry/borrow word); adc/sbb/carrying_add/borrowing_sub on the complete square of the boundary alphabet x both carries.",
          "Trusts num-bigint/u128; carry-in > 1 and unequal nx1 lengths are outside the callers' domain (no-panic only / not exercised).", "DESIGN.md 4 C15"),
 })
+CHECKS.update({
+ "C07": ("property-based testing (proptest, values at 2^k+-2 for the k relevant to each (type, width)) + exhaustive enumeration of all 8/16-bit sources and small-width targets, i128/BigInt oracle",
+         "Exploration: every primitive->Uint, Uint->primitive, limb-slice and Uint->Uint conversion entry point (try/from/wrapping/saturating/to) against exact integer semantics incl. the error variants and wrapped payloads; exhaustive for all bool/u8/i8/u16/i16 values into every width and all values of widths <= 17 into every primitive.",
+         "Trusts num-bigint and `as` casts (self-tested); ValueNegative payload unspecified when BITS exceeds the source width; Overflow.0 of Uint->Uint accepted as either width.", "DESIGN.md 4 C07"),
+ "C08": ("property-based testing (proptest; byte strings from 6 mutation classes) + enumeration of all strings of length <= 1, base-256 num-bigint oracle",
+         "Exploration: all encoding forms (arrays, vecs, borrowed, trimmed, copy-into-poisoned-buffer incl. too-short buffers for the checked forms) against the base-256 digits; all decoders on strings of length 0..=BYTES+8 with Some(v) iff len <= BYTES and v < 2^BITS, never panicking; widths emphasise the whole-limb fast path with a partial mask.",
+         "Trusts num-bigint byte conversion; little-endian target only.", "DESIGN.md 4 C08"),
+ "C09": ("property-based testing (proptest; digit lists, a 504-spec format grid, strings over the documented alphabets with mutations), num-bigint Horner / divmod oracle and u128 / BigUint formatting oracle",
+         "Exploration: to_base/from_base round trips and exact error classification; Display/Debug/LowerHex/UpperHex/Octal/Binary x flags x widths x fills against primitive formatting (BigUint above u128, self-tested against u128); from_str_radix for radix 0..=65+ and FromStr prefixes against the documented alphabets.",
+         "Trusts std u128 formatting and num-bigint formatting (cross-checked at start-up); undocumented ignorable characters accepted either way.", "DESIGN.md 4 C09"),
+ "C10": ("property-based testing (proptest; moduli and operands placed relative to the modulus) + exhaustive enumeration (all triples BITS<=5, all inv_mod pairs BITS<=8), num-bigint oracle",
+         "Exploration: reduce_mod/add_mod/mul_mod/pow_mod against BigUint %, modpow (0 for m = 0) and inv_mod by its defining predicate (Some iff m >= 2 and gcd = 1, x < m, a*x = 1).",
+         "Trusts num-bigint/num-integer; exponents truncated to 128 bits above 64-bit widths.", "DESIGN.md 4 C10"),
+ "C11": ("property-based testing (proptest; moduli with top limbs at and between the 2^62/2^63 carry thresholds, operands m-1, (m+-1)/2, R mod m), num-bigint residue oracle, branch-coverage hook counters",
+         "Exploration: algorithms::{mul_redc,square_redc} for N = 1..16 and the Uint methods for 18 widths: result < m and result*2^(64N) = a*b (mod m); reach of the extra-carry and final-subtraction paths measured by hook counters.",
+         "Trusts num-bigint; inputs inside the documented preconditions (m odd, a,b < m, inv = -m^-1 mod 2^64 from the harness's own Newton iteration).", "DESIGN.md 4 C11"),
+ "C12": ("property-based testing (proptest; pairs built from generated quotient sequences, close pairs, shared leading bits, prefix extensions) + exhaustive enumeration for BITS<=7, exact signed num-bigint oracle, branch-coverage hook counters",
+         "Exploration: gcd/lcm/gcd_extended against BigUint gcd, lcm fit predicate and the Bezout identity mod 2^BITS; LehmerMatrix::from/from_u64/from_u64_prefix/from_u128_prefix validity (identity, or c >= d >= 0, d < b, gcd preserved) in exact signed arithmetic on the pair and on generated extensions; apply/apply_u128/compose against exact application; every matrix-selection outcome and the Euclidean fallback counted by hooks.",
+         "Trusts num-bigint/num-integer; cofactor magnitudes are not part of the property.", "DESIGN.md 4 C12"),
+ "C13": ("property-based testing (proptest; perfect powers +-1, boundary bases by integer roots) + exhaustive enumeration for BITS<=6, num-bigint oracle and validity predicate for roots, deterministic step bound for termination",
+         "Exploration: pow family against modpow and the exact overflow predicate; log/log2/log10 and checked forms against an integer loop incl. no-panic at widths 0..3; root by r^d <= v < (r+1)^d for degrees 1..=BITS+2, 2^32, usize::MAX; termination decided by the hook step bound.",
+         "Trusts num-bigint; step bound 2^16 iterations per call.", "DESIGN.md 4 C13"),
+ "C16": ("property-based testing (proptest; values at each format's mode boundaries) + exhaustive enumeration for BITS<=8, hand-written reference encoders per wire format and differential comparison with the codec crates' own u64/u128 encodings",
+         "Exploration: every integration (serde JSON/bincode, rlp, alloy-rlp, fastrlp 0.3/0.4, SCALE fixed/compact, SSZ, borsh, DER, num-bigint, primitive-types, bytemuck, postgres, ark-ff 0.3/0.4): round trip with exact consumption, advertised lengths vs bytes produced, bytes vs reference encoder, identity with the codec crate's primitive encoding.",
+         "Trusts the reference encoders (self-tested against the codec crates on u64/u128) and num-bigint; Postgres text/numeric types compared by denoted value.", "DESIGN.md 4 C16"),
+ "C17": ("property-based testing (proptest; valid encodings with single-field mutations, out-of-range and truncated inputs, uniform strings), hand-written reference decoders, panic-location attribution",
+         "Exploration: 20 decoder families x 13 widths: no panic raised in ruint code, accepted values canonical, < 2^BITS and equal to what the reference decoder says the input denotes, must-reject classes rejected, canonical-form decoders re-encode to the consumed bytes.",
+         "One-directional on acceptance; lenient formats compared by value only; panics located in third-party crates are not attributed to ruint.", "DESIGN.md 4 C17"),
+ "C18": ("property-based testing (proptest; float bit patterns at ties, top-binade integers, 2^BITS neighbours, specials) + exhaustive f32 grids and small-width enumeration, exact rational oracle decoded from IEEE-754 bit patterns",
+         "Exploration: Uint->f64/f32 must be one of the two neighbours of the exact value (exact when representable, +inf only beyond the rounding limit, monotone); f64/f32->Uint = exact floor(f+1/2) with Ok iff < 2^BITS, ValueTooLarge / ValueNegative / NotANumber classification, from panics iff error, saturating forms.",
+         "Trusts num-bigint and the bit-pattern decoder (self-tested against std); error payloads and out-of-range wrapping_from not compared.", "DESIGN.md 4 C18"),
+ "C20": ("property-based testing (proptest), differential inside the library: each facade against the inherent method; per-case discrimination counters",
+         "Exploration: operator shapes, Bits forwards, num-traits / num-integer / subtle / zeroize impls, Sum/Product return exactly what the inherent method returns (or both panic); evidence counts, per kind of plausible mis-forward, how many cases could have exposed it.",
+         "Reference is the inherent method (itself decided by C01-C13); float default methods and Uint shift amounts above usize not asserted.", "DESIGN.md 4 C20"),
+})
 NOT_YET = {}
 
 def main():
